@@ -56,6 +56,19 @@ class Net:
             raise RuntimeError("harness error: attempt to open a real socket")
 
         socket.socket.connect = _no_connect
+        # build_opener() creates an HTTPSHandler - and with it a default TLS context, loading the system certificates
+        # (~20 ms) - on every call; no connection is ever made here, so one context is created once and reused
+        import ssl
+
+        self._orig_ctx = ssl._create_default_https_context
+        cache = {}
+
+        def _ctx(*a, **k):
+            if "c" not in cache:
+                cache["c"] = self._orig_ctx(*a, **k)
+            return cache["c"]
+
+        ssl._create_default_https_context = _ctx
         self.installed = True
 
     def uninstall(self):
@@ -65,6 +78,9 @@ class Net:
 
         urllib.request.HTTPHandler.http_open, urllib.request.HTTPSHandler.https_open = self._orig
         socket.socket.connect = self._orig_conn
+        import ssl
+
+        ssl._create_default_https_context = self._orig_ctx
         self.installed = False
 
     def _exchange(self, req):
